@@ -54,13 +54,22 @@ def type_infer(t, *, forbid_internal=True):
         """Join temporary type variable T1 with T2."""
         # Compute the set of temporary type variables reachable from T2.
         if is_internal_type(T2):
-            new_reach = reach[int(T2.name[2:])]
+            new_reach = set(reach[int(T2.name[2:])])
         else:
             new_reach = set()
             for T in T2.get_stvars():
                 if is_internal_type(T):
                     new_reach.add(int(T.name[2:]))
                     new_reach.update(reach[int(T.name[2:])])
+
+        # reach[k] was computed when k was bound: what the variables in it
+        # have been bound to since is reachable as well.
+        todo = list(new_reach)
+        while todo:
+            for j in reach[todo.pop()]:
+                if j not in new_reach:
+                    new_reach.add(j)
+                    todo.append(j)
 
         # Update uf and reach, check for cycles in reach.
         for k, v in uf.items():
